@@ -568,7 +568,7 @@ class RobustCoverageGuided(Robust):
     Falls back to plain Hypothesis generation when atheris could not be installed by MANIFEST.setup_cmd."""
     name = "robust-coverage-guided"
     mode = "cgfuzz"
-    examples = {"quick": 960, "thorough": 16000}
+    examples = {"quick": 960, "thorough": 1920}
     shards = {"quick": 8, "thorough": 16}
     rule = RULE + "; engine: atheris/libFuzzer edge coverage of nostr_relay over Hypothesis' fuzz_one_input"
 
